@@ -336,6 +336,14 @@ class Runner:
                 source = self.obj
                 new = self.obj.copy(cell_mask=np.array(lab["mask"], dtype=bool))
                 self.obj = new
+            elif act == "DataMaskedCopy":
+                # one child copied with a mask onto a twin of the object (same geometry, no children);
+                # the twin becomes the object under observation
+                child = self._child(f"d{lab['name']}")
+                twin = self.obj.copy(copy_children=False)
+                child.copy(parent=twin, mask=np.array(lab["mask"], dtype=bool))
+                source = self.obj
+                self.obj = twin
             elif act == "ReadParts":
                 _ = self.obj.parts  # computes and caches Curve._parts; nothing may change
             elif act == "CopyClearCache":
@@ -577,7 +585,8 @@ def run(tier, seed):
     # vacuity: every operation in both outcomes, every deviation predicted somewhere
     needed = [f"act:{a}:{o}" for a in ("AddData", "SetValues", "RemoveVertices", "RemoveCells", "MaskedCopy")
               for o in ("ok", "refused")] + ["act:Reopen:ok", "act:CellMaskedCopy:ok", "act:CopyClearCache:ok",
-                                               "act:ReadParts:ok"]
+                                               "act:ReadParts:ok", "act:DataMaskedCopy:ok",
+                                               "act:DataMaskedCopy:refused"]
     missing = [k for k in needed if not stats.get(k)]
     if missing:
         raise MachineryError(f"never exercised: {missing}")
